@@ -106,7 +106,7 @@ func normCall(data string) string {
 	return v
 }
 
-var aliasing = map[string]bool{"Alias": true, "BumpAlias": true, "Window": true, "Grow": true, "Reslice": true, "Share": true, "AddFunc": true, "CallFuncs": true, "GrowSq": true, "SlotSwap": true, "SlotRehome": true}
+var aliasing = map[string]bool{"Alias": true, "BumpAlias": true, "Window": true, "Grow": true, "Reslice": true, "Share": true, "AddFunc": true, "CallFuncs": true, "GrowSq": true, "SlotSwap": true, "SlotRehome": true, "SlotAdopt": true}
 
 func run(c *vf.Ctx) {
 	n := c.N(24, 400)
